@@ -9,6 +9,7 @@
 From Coq Require Import ZArith List Bool.
 From BT Require Import Model.RTree Model.TreeSpec Model.Check Model.CheckTree
                        Model.Persist Model.PersistSpec Proofs.StoreProofs Proofs.PersistProofs.
+From BT Require Import Model.TreeRun Model.PersistWorld Proofs.RunSyncProofs.
 Import ListNotations.
 Open Scope Z_scope.
 
@@ -80,6 +81,39 @@ Print Assumptions C04_footprint_del_partial.
 Print Assumptions C04_commit_partial.
 Print Assumptions C04_reader_partial.
 
+(* Run level (Model/PersistWorld.v): for EVERY history of public calls and
+   commits -- commits anywhere, each dumping a complete sequence in any order --
+   during which the guard holds whenever an action starts, a fresh reader after
+   a final commit sees exactly the writer's contents, by descent and along the
+   leaf chain, in a state satisfying the stored invariant.  Both flavours (isC)
+   and both value-same settings; every node size.  Calls: all but the bulk
+   forms update / |= / &= / -= / ^=, which are folds of these in the model. *)
+Theorem C04_run_partial :
+  forall (vs isC : bool) (ml mi : nat) (acts : list action) (seq : list nat),
+  (1 <= ml)%nat -> (2 <= mi)%nat ->
+  (forall c, In (ACall c) acts -> simple_call c = true) ->
+  run_ok vs isC ml mi pw_init (acts ++ [ACommit seq]) ->
+  let w := pw_run vs isC ml mi pw_init (acts ++ [ACommit seq]) in
+  let t := t_tree (pw_st w) in
+  let fuel := S (length (ids Z t)) in
+  load_items Z fuel (pw_s w) (tid Z t) = contents Z t /\
+  reader_iter Z fuel (pw_s w) (tid Z t) = contents Z t /\
+  exists p, load Z fuel (pw_s w) (tid Z t) = Some p /\ inv_stored p.
+Proof. exact RunSyncProofs.run_commit_reader. Qed.
+
+(* non-vacuity: a run with a split, two commits in different dump orders, a
+   delete -- the hypotheses hold and the conclusion is computed *)
+Example C04_run_example :
+  let acts := [ACall (CSet 5 50); ACall (CSet 1 10); ACommit [0%nat]; ACall (CSet 9 90);
+               ACall (CSet 3 30); ACall (CSet 7 70)] in
+  let w := pw_run false true 2 2 pw_init acts in
+  let seq := rev (ids Z (t_tree (pw_st w))) in
+  let w' := pw_run false true 2 2 pw_init (acts ++ [ACommit seq]) in
+  no_embed_below_b true (p_stored (pw_p w)) (t_tree (pw_st w)) = true /\
+  complete Z (t_tree (pw_st w)) (pw_p w) seq (pw_s w) = true /\
+  reader_iter Z 20 (pw_s w') 0%nat = [(1, 10); (3, 30); (5, 50); (7, 70); (9, 90)].
+Proof. vm_compute. repeat split. Qed.
+
 (* The unguarded statement is false (F16): a non-root node holding one leaf
    without oid is dumped before the object that references that leaf; the
    reader then has two copies of the leaf.  Witness: the committed store of
@@ -92,3 +126,4 @@ Theorem C04_refuted :
     (forall q, load Z 20 s' (tid Z t) = Some q -> pcheck_fn q = false).
 Proof. exact PersistProofs.commit_reload_refuted. Qed.
 Print Assumptions C04_refuted.
+Print Assumptions C04_run_partial.
